@@ -479,6 +479,22 @@ fn ctor_case(ch: &mut Choices<'_>, st: &mut Stats) -> CaseResult {
             &want_arr,
         ),
         (
+            // an iterator that cannot announce its length (size_hint lower bound 0)
+            "Array::try_from_iter(filtered iterator)",
+            catch(|| Array::try_from_iter(et, lhs.clone().into_iter().filter(|_| true)).map(LhsValue::Array)),
+            &want_arr,
+        ),
+        (
+            // an iterator that announces only its first half
+            "Array::try_from_iter(chained iterator)",
+            catch(|| {
+                let (a, b) = lhs.split_at(lhs.len() / 2);
+                let mut tail = b.to_vec().into_iter();
+                Array::try_from_iter(et, a.to_vec().into_iter().chain(std::iter::from_fn(move || tail.next()))).map(LhsValue::Array)
+            }),
+            &want_arr,
+        ),
+        (
             "Array::try_from_vec",
             catch(|| Array::try_from_vec(et, lhs.clone()).map(LhsValue::Array)),
             &want_arr,
